@@ -270,7 +270,10 @@ let () =
            | Panic -> "panic" in
          let sp =
            if schema = [] then
-             (if tid = "c" then "c" else if wt u (TPtr (n_of_int (int_of_string tid))) v then "wt" else "illtyped")
+             (if tid = "c" then "c"
+              else if wt u (TPtr (n_of_int (int_of_string tid))) v then
+                (if canonical u (TPtr (n_of_int (int_of_string tid))) v then "wt-canonical" else "wt")
+              else "illtyped")
            else if tid = "c" then "illtyped"
            else let tidn = n_of_int (int_of_string tid) in
            if not (wt u (TPtr tidn) v) then "illtyped"
